@@ -146,8 +146,16 @@ pub fn parse_unit(path: &str, include_dir: &str) -> Result<Unit, String> {
         Item::Struct { file, name, .. } => seen_items.insert(format!("{}::{}", file, name)),
         Item::Const { file, name } => seen_items.insert(format!("{}::{}", file, name)),
         Item::Raw(t) => seen_items.insert(format!("raw:{}", t)),
-        Item::Target(t) => seen_items.insert(format!("target:{}", t.name)),
+        Item::Target(t) => seen_items.insert(format!("target:{}:{}:{:?}:{}", t.name, t.file, t.impl_of, t.fn_name)),
     });
+    let mut names = std::collections::BTreeSet::new();
+    for it in &unit.items {
+        if let Item::Target(t) = it {
+            if !names.insert(t.name.clone()) {
+                return Err(format!("duplicate target name `{}` for different sources", t.name));
+            }
+        }
+    }
     let mut seen_g = std::collections::BTreeSet::new();
     unit.drop_generics.retain(|g| seen_g.insert(g.clone()));
     Ok(unit)
